@@ -159,7 +159,7 @@ func c16Run(env *core.Env, idx int) core.CaseResult {
 	}
 	rng := core.Rng(env.Seed, "C16", idx)
 	// no nested targets: the versions rotate definition names, which keeps every top-level target resolvable
-	o := gen.WorldOpts{NDocs: 2 + rng.Intn(3), Cyclic: rng.Intn(2) == 0, Nested: false, Chains: rng.Intn(3) == 0, HTTP: rng.Intn(2) == 0,
+	o := gen.WorldOpts{NDocs: 2 + rng.Intn(3), Cyclic: rng.Intn(2) == 0, Nested: false, AbsOnly: idx%2 == 0, FragmentOnly: idx%2 == 0, Chains: rng.Intn(3) == 0, HTTP: rng.Intn(2) == 0,
 		Elements: 2 + rng.Intn(2), MaxDepth: 1 + rng.Intn(2), RefDensity: 0.55}
 	base := gen.GenWorld(rng, o)
 	versions := []*gen.World{base, worldVersion(base, 1), worldVersion(base, 2)}
@@ -171,6 +171,10 @@ func c16Run(env *core.Env, idx int) core.CaseResult {
 	prevKind := "start"
 	savedLoader := spec.PathLoader
 	defer func() { spec.PathLoader = savedLoader }()
+	// an option structure without base location that the caller reuses from call to call
+	var curLoader *loaderLog
+	sharedOpts := &spec.ExpandOptions{PathLoader: func(u string) (json.RawMessage, error) { return curLoader.load(u) }}
+	sharedBefore := snapOpts(sharedOpts)
 	for step := 0; step < c16HistoryLen(env); step++ {
 		v := rng.Intn(3)
 		w, in := versions[v], ins[v]
@@ -178,11 +182,15 @@ func c16Run(env *core.Env, idx int) core.CaseResult {
 			sameURLDifferentContent++
 		}
 		lastVersion = v
-		kind := []string{"ExpandSpec", "ExpandSchemaWithBasePath", "ResolveRefWithBase", "ExpandResponse", "ExpandParameter", "meta-schema", "ExpandSchema(typed-root)"}[rng.Intn(7)]
+		kind := []string{"ExpandSpec", "ExpandSchemaWithBasePath", "ResolveRefWithBase", "ExpandResponse", "ExpandParameter", "meta-schema", "ExpandSchema(typed-root)", "ExpandSpec(shared-options,no-base)"}[rng.Intn(8)]
+		if kind == "ExpandSpec(shared-options,no-base)" && !o.AbsOnly {
+			kind = "ExpandSpec" // without a base location only absolute and fragment-only references are meaningful
+		}
 		history = append(history, fmt.Sprintf("%s(v%d)", kind, v))
 		res.Count("pair."+prevKind+"->"+kind, 1)
 		prevKind = kind
 		ld := newLoader(w)
+		curLoader = ld
 		// the package default loader is swapped between calls
 		if rng.Intn(2) == 0 {
 			spec.PathLoader = ld.load
@@ -247,6 +255,21 @@ func c16Run(env *core.Env, idx int) core.CaseResult {
 				report("result-depends-on-earlier-call", mm[0])
 			}
 			checkLoadedAfresh(oracle.SpecStarts(in, w.Root, true))
+		case "ExpandSpec(shared-options,no-base)":
+			sw := new(spec.Swagger)
+			_ = json.Unmarshal(ld.docs[w.Root], sw)
+			err, pan := guard(func() error { return spec.ExpandSpec(sw, sharedOpts) })
+			if pan != "" || err != nil {
+				report("call-failed", fmt.Sprintf("%v %s", err, pan))
+				break
+			}
+			out, _ := oracle.Norm(sw)
+			var plain interface{}
+			b, _ := json.Marshal(out)
+			_ = json.Unmarshal(b, &plain)
+			if mm, _ := monitorMeaning(in, w.Root, plain, true); len(mm) > 0 {
+				report("result-depends-on-earlier-call", mm[0])
+			}
 		case "ExpandSchemaWithBasePath", "ExpandSchema(typed-root)":
 			elem := pick("definitions")
 			if elem == "" {
@@ -424,6 +447,10 @@ func c16Run(env *core.Env, idx int) core.CaseResult {
 		if after := snapOpts(opts); after != before {
 			report("caller-options-modified", fmt.Sprintf("%+v -> %+v", before, after))
 		}
+		if after := snapOpts(sharedOpts); after != sharedBefore {
+			report("caller-options-modified", fmt.Sprintf("reused option structure: %+v -> %+v", sharedBefore, after))
+			sharedOpts.RelativeBase = ""
+		}
 		checkDefaultCache(report)
 		res.Count("call."+kind, 1)
 		res.Count("quiescent-cache-inspections", 1)
@@ -448,7 +475,7 @@ func init() {
 		NumCases: c16NumCases,
 		Run:      c16Run,
 		Floors: func(env *core.Env) []string {
-			return []string{"call.ExpandSpec", "call.ExpandSchemaWithBasePath", "call.ResolveRefWithBase", "call.ExpandResponse", "call.ExpandParameter", "call.meta-schema", "call.ExpandSchema(typed-root)",
+			return []string{"call.ExpandSpec", "call.ExpandSchemaWithBasePath", "call.ResolveRefWithBase", "call.ExpandResponse", "call.ExpandParameter", "call.meta-schema", "call.ExpandSchema(typed-root)", "call.ExpandSpec(shared-options,no-base)",
 				"quiescent-cache-inspections", "consecutive-calls-on-same-urls-with-different-content"}
 		},
 		ChunkSize:   10,
